@@ -124,7 +124,35 @@ def translate():
         if old != out:
             with open(dst, "w") as f:
                 f.write(out)
+    ok2, info2 = translate_source()
+    if not ok2:
+        return False, info2
     return True, hashlib.sha256(out.encode()).hexdigest()[:16]
+
+
+def translate_source():
+    """regenerate coq/gen/Gen.v (the arithmetic core translated from the C++ by tools/cxx2coq.py through clang's AST); cached on the
+    hash of the headers and of the translator."""
+    h = hashlib.sha256()
+    for root, _, files in sorted(os.walk(os.path.join(REPO, "include"))):
+        for f in sorted(files):
+            if f.endswith(".hpp") or f.endswith(".h"):
+                h.update(open(os.path.join(root, f), "rb").read())
+    h.update(open(os.path.join(ROOT, "tools/cxx2coq.py"), "rb").read())
+    tag = "(* source-hash %s *)" % h.hexdigest()
+    dst = os.path.join(COQ, "gen/Gen.v")
+    with Lock("translate_source"):
+        if os.path.exists(dst) and tag in open(dst).read(200):
+            return True, "cached"
+        tmp = dst + ".tmp"
+        rc, out = sh([sys.executable, os.path.join(ROOT, "tools/cxx2coq.py"), REPO, tmp], timeout=900)
+        if rc != 0 or not os.path.exists(tmp):
+            # the translator cannot read the source any more: leave an empty module so that the equality proofs fail (obligation broken)
+            open(dst, "w").write(tag + "\n(* translation failed: %s *)\n" % out[-500:].replace("*)", "* )"))
+            return True, "translation failed (GenEq.v will not build)"
+        open(dst, "w").write(tag + "\n" + open(tmp).read())
+        os.remove(tmp)
+    return True, "regenerated"
 
 
 def read_params():
@@ -144,7 +172,7 @@ def read_params():
 
 # ---------------------------------------------------------------- prove
 def coq_makefile():
-    vs = sorted(f for f in os.listdir(COQ) if f.endswith(".v") and f != "Extract.v") + ["gen/Params.v"]
+    vs = sorted(f for f in os.listdir(COQ) if f.endswith(".v") and f != "Extract.v") + ["gen/Params.v", "gen/Gen.v"]
     txt = "-Q . NTT\n" + "\n".join(vs) + "\n"
     p = os.path.join(COQ, "_CoqProject")
     if not os.path.exists(p) or open(p).read() != txt or not os.path.exists(os.path.join(COQ, "Makefile")):
